@@ -124,7 +124,11 @@ func (w *Worktree) status(cfg *config.Config, ss StatusStrategy, commit plumbing
 			fs.Worktree = Deleted
 		case merkletrie.Insert:
 			fs.Worktree = Untracked
-			fs.Staging = Untracked
+			// a path staged as deleted that is still on disk keeps its
+			// staged deletion (git reports both "D " and "??" for it)
+			if fs.Staging != Deleted {
+				fs.Staging = Untracked
+			}
 		case merkletrie.Modify:
 			fs.Worktree = Modified
 		}
